@@ -39,6 +39,19 @@ def _observe(kind, impl, ref):
     return bad
 
 
+def same_behaviour(a, b, n):
+    """Observable equality of two policy objects: victim and representation now and after any one further access."""
+    if a.get_next_to_replace() != b.get_next_to_replace() or list(a.get_repr()) != list(b.get_repr()):
+        return False
+    for j in range(n):
+        a2, b2 = copy.deepcopy(a), copy.deepcopy(b)
+        a2.access(j)
+        b2.access(j)
+        if a2.get_next_to_replace() != b2.get_next_to_replace() or list(a2.get_repr()) != list(b2.get_repr()):
+            return False
+    return True
+
+
 def replay_hist(kind, n, hist):
     impl, ref = make(kind, n)
     for i in hist:
@@ -73,8 +86,8 @@ def policy_space(shard):
                     # idempotence: a second access to the same block leaves the state unchanged
                     im3 = copy.deepcopy(im2)
                     im3.access(i)
-                    if canon(im3) != canon(im2) or im3.get_next_to_replace() != im2.get_next_to_replace() or list(im3.get_repr()) != list(im2.get_repr()):
-                        bad.append(("idempotence", f"access({i}) twice differs from access({i}) once"))
+                    if not same_behaviour(im3, im2, n):
+                        bad.append(("idempotence", f"access({i}) twice differs from access({i}) once (victim / get_repr now or after one more access)"))
                 except Exception as e:  # noqa
                     bad = [("exception", f"access({i}) raised {type(e).__name__}: {e}")]
                     im2 = None
@@ -110,8 +123,8 @@ def replay(case):
     if hist:
         im3 = copy.deepcopy(impl)
         im3.access(hist[-1])
-        if canon(im3) != canon(impl) or list(im3.get_repr()) != list(impl.get_repr()):
-            bad.append(("idempotence", "second access changes the state"))
+        if not same_behaviour(im3, impl, n):
+            bad.append(("idempotence", "second access changes the observable state"))
     return [(dict(oracle="policy", policy=kind, field=f), f"{kind}({n}) after {hist}: {d}") for f, d in bad]
 
 
